@@ -320,8 +320,7 @@ def run(ck):
                 INV = T.app("unique_inverse", T.sym("bases"))
                 sub = T.app("index", T.sym("S"), (("adv", T.app("cmp_Eq", INV, I)), ("slice", None, None, None)))
                 bas = T.app("index", UB, (I, ("slice", None, None, None)))
-                rotated = any(c[1].startswith("rot_sites.size") and c[2] for c in p.conds)
-                zlit = [c for c in p.conds if len(c) > 3 and c[1].startswith("rot_sites.size")]
+                rotated = some_selected(p, "NeuralStateBase.gradient") is True
                 if rotated:
                     rc = [c for c in p.calls if c[0] == cls + ".rotated_gradient"]
                     ck.check(len(rc) == 2, "C03.R4", inst + ":one rotated gradient per group", gsite, "rotated_gradient called %d times in the two analysed iterations" % len(rc))
@@ -343,8 +342,6 @@ def run(ck):
                              "the phase gradient of a reference-basis group is %r" % (items[1].term,))
                 # the reference-basis literal
                 lits = set()
-                for c in p.conds:
-                    v = c[3] if len(c) > 3 else None
                 for c in it.ext_calls:
                     if c[0] == "numpy.where" and c[1] and isinstance(c[1][0], VTens) and c[1][0].term is not None:
                         lits |= {x for x in c[1][0].term.syms() if x.startswith("lit:")}
